@@ -468,13 +468,15 @@ func runAdmitGateScenario(col *trace.Collector, k int) (hooks []verifhook.Record
 		return nil, nil, "gate not reached"
 	}
 	cancelBackends := k >= 6
+	var cancelDone chan struct{} // closed when CancelBackends (which waits for every session of the backends) has returned
 	what := "the peer disconnected"
 	if cancelBackends {
 		// the BACKEND goes away (CancelBackends, as a configuration reload does) while the node keeps running: the
 		// session is registered but not established; which ready branch of the select wins is a coin flip, hence
 		// the repetitions
 		what = "the backends were cancelled"
-		go n.N.CancelBackends()
+		cancelDone = make(chan struct{})
+		go func() { defer close(cancelDone); n.N.CancelBackends() }()
 	} else {
 		p.Close() // the peer goes away
 	}
@@ -500,7 +502,13 @@ func runAdmitGateScenario(col *trace.Collector, k int) (hooks []verifhook.Record
 		time.Sleep(10 * time.Millisecond)
 	}
 	if cancelBackends && len(viol) == 0 {
-		// the same peer returns through a new backend: it must be admitted (nothing of the dead session is left)
+		// the same peer returns through a new backend: it must be admitted (nothing of the dead session is left).
+		// CancelBackends must have returned first (AddBackend re-uses the node-wide wait group it is waiting on).
+		select {
+		case <-cancelDone:
+		case <-time.After(20 * time.Second):
+			return nil, nil, "CancelBackends did not return within 20 s after the session had ended"
+		}
 		be := memnet.NewBackend()
 		if err := n.N.AddBackend(be); err != nil {
 			return nil, nil, "AddBackend after CancelBackends: " + err.Error()
